@@ -26,10 +26,10 @@ META = {'text': 'Proved for ALL graphs, changed sets, environments, states. (1) 
          're-evaluating its loader returns and its node holds exactly what that re-evaluation reads -- under the NAMED hypotheses CleanLoad (on the path taken: plain '
          'constructors, recorded look-ups, no nested load failure absorbed by a loader that then succeeds, no get_cached probe of a key that is cached before the load '
          'returns) and NoProbedKeyFilled; C05_history_settled_partial: the same after every hot_reload of a history of load / get_or_insert / get_cached / contains / '
-         'remove / take (of a key nothing registered depends on: NoDependentOn, necessary by C05_remove_breaks_settled) / hot_reload steps from the empty cache; C05_load_edit_reload_converges_partial: load, edit, notify, hot_reload => settled under the new source. (4) Static mode (Lemmas/StaticMode.lean): C05_static_events_converge_partial (one batch of events handled by the reloader on its own), C05_enhance_converges_partial (the switch applies what was pending), C05_static_history_partial (Settled after EVERY reloader step of a history of load / get_or_insert / remove / take / look-ups / notify / hot_reload / enhance, registrations of loads waiting in the channel included), C05_hot_reload_static_idle (hot_reload is a no-op in static mode); both known findings also arise in static mode (C05_static_statement_false_rewire / _miss). The '
+         'remove / take (of a key nothing registered depends on: NoDependentOn, necessary by C05_remove_breaks_settled) / hot_reload steps from the empty cache; C05_load_edit_reload_converges_partial: load, edit, notify, hot_reload => settled under the new source. (4) Static mode (Lemmas/StaticMode.lean): C05_static_events_converge_partial (one batch of events handled by the reloader on its own), C05_enhance_converges_partial (the switch applies what was pending), C05_static_history_partial (Settled after EVERY reloader step of a history of load / get_or_insert / remove / take / look-ups / notify / hot_reload / enhance, registrations of loads waiting in the channel included), C05_hot_reload_static_idle (hot_reload is a no-op in static mode); histories with `clear` and top-level `load_owned` (Lemmas/HistMore.lean: C05_history_with_clear_partial, C05_history_with_load_owned_partial, C05_last_registration_wins -- stale registrations and Clear messages anywhere in the channel are harmless); both known findings also arise in static mode (C05_static_statement_false_rewire / _miss). The '
          'unrestricted load statement is refuted on concrete witnesses (C05_load_settles_false_absorbed, C05_load_settles_false_probe, C05_load_preserves_false_fill).',
  'design_ref': 'DESIGN.md §D C05, §E',
  'note': 'partial: convergence is proved per pass (the conclusion re-establishes the hypotheses for the next pass except the rank function); that loads establish Settled '
-         'is proved under CleanLoad / NoProbedKeyFilled only (histories with clear / load_owned are not covered); loadOwned edges, unrecorded reads (no_record / helper threads), cold types and static-mode '
+         'is proved under CleanLoad / NoProbedKeyFilled only (nested load_owned is outside `Settled` by definition: C05_nested_load_owned_never_settled); loadOwned edges, unrecorded reads (no_record / helper threads), cold types and static-mode '
          'handle_events are outside the semantic theorem and decided by the correspondence + fresh-load oracle; HashSet iteration order is modelled as any order.',
  'technique': 'Lean 4 proof (read-set determinacy + topological induction over one update pass; graph invariants over all histories) + differential correspondence + fresh-load oracle'}
